@@ -92,6 +92,11 @@ func cases(run *vf.Run) ([]json.RawMessage, error) {
 		rng := rand.New(rand.NewSource(vf.SubSeed(run.Seed, "C16-demo2")))
 		out = append(out, vf.Spec(histSpec{Kind: "hist", Idx: -2, Seed: vf.SubSeed(run.Seed, "C16-demo2-case"), IntervalMs: 10, Cfg: pickConfig(rng, 2), Demo: "bridge2"}))
 	}
+	// demonstration history: restart below the first level-9 snapshot (pinned third)
+	{
+		rng := rand.New(rand.NewSource(vf.SubSeed(run.Seed, "C16-demo3")))
+		out = append(out, vf.Spec(histSpec{Kind: "hist", Idx: -3, Seed: vf.SubSeed(run.Seed, "C16-demo3-case"), IntervalMs: 10, Cfg: pickConfig(rng, 2), Demo: "first-snapshot-later"}))
+	}
 	// kill campaigns first: they are the long cases
 	for sc := 0; sc < scns; sc++ {
 		seed := vf.SubSeed(run.Seed, "C16-scenario", sc)
